@@ -63,6 +63,21 @@ func (cs *ContractStore) Iterate(prefix []byte, fn func(key []byte, value []byte
 	)
 }
 
+// IterateStorage visits every storage entry persisted for the address, also
+// those written earlier in the same block. The range is bounded by the binary
+// successor of the address prefix (the keys are raw bytes, not text).
+func (cs *ContractStore) IterateStorage(address ethcmn.Address, fn func(key []byte, value []byte) bool) (stop bool) {
+	start := []byte(cs.GetStoreKey(AddressStoragePrefix(address), nil))
+	end := append([]byte{}, start...)
+	for i := len(end) - 1; i >= 0; i-- {
+		end[i]++
+		if end[i] != 0 {
+			break
+		}
+	}
+	return cs.State.IterateRangeWithPending(start, end, true, fn)
+}
+
 // AddressStoragePrefix returns a prefix to iterate over a given account storage.
 func AddressStoragePrefix(address ethcmn.Address) []byte {
 	return append(KeyPrefixStorage, address.Bytes()...)
